@@ -281,7 +281,38 @@ def _envelopes_spelled(draw):
     return c
 
 
+ODD_THRESHOLDS = [float("nan"), float("inf"), float("-inf"), 0, -1, 0.0, -0.0, 0.5, 1.5, 1e-300, None, "1", "", [], [1], {}, (1,), b"1", False,
+                  -(10 ** 400)]
+
+
+def enum_thresholds(tier):
+    for i, t in enumerate(ODD_THRESHOLDS):
+        for n_valid in (0, 1, 2):
+            for gpg in (False, True):
+                yield {"t": t, "n_valid": n_valid, "gpg": gpg, "i": i}
+
+
+def check_threshold(case):
+    """a threshold that is no integer >= 1 (NaN, infinities, zero, negatives, fractions, non-numbers) never makes verify_signable
+    return normally with fewer valid authorized signers than ANY natural threshold would need - in particular never with none"""
+    from vlib import tagjson
+    t = case["t"]
+    seeds = keys.POOL[:3]
+    pubs = [keys.pub_hex(s) for s in seeds]
+    env = GM.wrap({"name": "pkg", "i": case["i"]})
+    GM.sign_envelope(env, seeds[:case["n_valid"]], case["gpg"])
+    env["signatures"][pubs[2]] = {"signature": "00" * 64} if not case["gpg"] else {"other_headers": "04", "signature": "00" * 64}
+    o, exc = RV.outcome(A.verify_signable, env, pubs, t, gpg=case["gpg"])
+    numeric = type(t) in (int, float) and t == t
+    if o == "accept" and not (numeric and case["n_valid"] >= t and case["n_valid"] >= 1):
+        raise Violation("verify_signable(threshold=%r) returned normally with %d valid authorized signer(s)" % (t, case["n_valid"]),
+                        bucket="odd threshold accepted")
+    return {"nontrivial": True, "labels": ["t=" + type(t).__name__, "out=" + o]}
+
+
 UNITS = [
+    Unit("thresholds", check_threshold, enumerate=enum_thresholds, exhaustive=True, shards_quick=2,
+         doc="20 thresholds that are no natural number (NaN, +-inf, 0, negatives, fractions, non-numbers) x 0-2 valid signers x both modes"),
     Unit("interrupted_sweep", check_interrupted_sweep, strategy=lambda: __import__("props.C12", fromlist=["x"])._sweep_cases(),
          quick=36, thorough=900, shards_quick=6,
          doc="every line event and every C-level call (the crypto dependency included) of a verification interrupted once, then retried"),
